@@ -1046,3 +1046,56 @@ T('C02', 'twin-no-groups-early-return', QX,
 M('C02', 'null-row-taken-for-empty-table', QX,
   "        # Iterate over all the aggregations.\n", "        if context is None:\n            return result_types, []\n\n        # Iterate over all the aggregations.\n",
   ('R-AGGPROTO', 'execute_select'))
+M('C18', 'position-cost-takes-market-value', QE,
+  "    return convert.get_cost(pos)", "    return convert.get_value(pos, {})",
+  ('R-DEFN', 'function:cost'))
+M('C18', 'getprice-pair-not-uppercased', QE,
+  "    pair = (base.upper(), quote.upper())", "    pair = (base, quote.upper())",
+  ('R-DEFN', 'function:getprice'))
+M('C18', 'possign-zero-sign-negated', QE,
+  "    return x if sign >= 0  else -x", "    return x if sign > 0 else -x",
+  ('R-DEFN', 'function:possign'))
+T('C18', 'twin-possign-negative-first', QE,
+  "    return x if sign >= 0  else -x", "    return -x if sign < 0 else x")
+M('C18', 'parse-date-format-ignored', QE,
+  "    if frmt is None:\n        return dateutil.parser.parse(string).date()", "    if frmt is not None:\n        return dateutil.parser.parse(string).date()",
+  ('R-DEFN', 'function:parse_date'))
+T('C18', 'twin-parse-date-format-first', QE,
+  "    if frmt is None:\n        return dateutil.parser.parse(string).date()\n    return datetime.datetime.strptime(string, frmt).date()", "    if frmt is not None:\n        return datetime.datetime.strptime(string, frmt).date()\n    parsed = dateutil.parser.parse(string)\n    return parsed.date()")
+M('C18', 'filter-currency-position-inverted', QE,
+  "    return pos if pos.units.currency == currency else None", "    return pos if pos.units.currency != currency else None",
+  ('R-DEFN', 'function:filter_currency'))
+M('C18', 'safediv-divides-before-test', QE,
+  "    if y == 0:\n        return ZERO\n    return x / y", "    q = x / y\n    if y == 0:\n        return ZERO\n    return q",
+  ('R-DEFN', 'function:safediv'))
+T('C18', 'twin-safediv-truthiness-test', QE,
+  "    if y == 0:\n        return ZERO\n    return x / y", "    if not y:\n        return ZERO\n    return x / y")
+T('C18', 'twin-getprice-locals', QE,
+  "    pair = (base.upper(), quote.upper())\n    _, price = prices.get_price(price_map, pair, date)\n    return price", "    base, quote = base.upper(), quote.upper()\n    result = prices.get_price(price_map, (base, quote), date)\n    return result[1]")
+M('C18', 'weekday-full-name', QE,
+  "    return x.strftime('%a')", "    return x.strftime('%A')",
+  ('R-DEFN', 'function:weekday'))
+M('C18', 'quarter-zero-based', QE,
+  "(x.month - 1) // 3 + 1)", "(x.month - 1) // 3)",
+  ('R-DEFN', 'function:quarter'))
+M('C18', 'interval-month-as-thirty-days', QE,
+  "    if unit == 'month':\n        return relativedelta(months=number)", "    if unit == 'month':\n        return relativedelta(days=number * 30)",
+  ('R-DEFN', 'function:interval'))
+M('C18', 'interval-blank-optional', QE,
+  "r'([-+]?[0-9]+)\\s+(day|month|year)s?'", "r'([-+]?[0-9]+)\\s*(day|month|year)s?'",
+  ('R-DEFN', 'function:interval'))
+T('C18', 'twin-interval-weeks-admitted-and-mapped', QE,
+  "r'([-+]?[0-9]+)\\s+(day|month|year)s?'", "r'([-+]?[0-9]+)\\s+(day|week|month|year)s?'")
+T('C18', 'twin-interval-groups-unpacked', QE,
+  "    number = int(m.group(1))\n    unit = m.group(2)\n", "    digits, unit = m.group(1), m.group(2)\n    number = int(digits)\n")
+M('C11', 'typed-columns-read-published-name', SB,
+  "        columns[colname] = GetAttrColumn(name, dtype)", "        columns[colname] = GetAttrColumn(colname, dtype)",
+  ('R-TYPEDCOLS', '_typed_namedtuple_to_columns'))
+M('C11', 'typed-columns-optional-not-unwrapped', SB,
+  "                dtype = dtypes[0]\n", "                dtype = dtypes[0]\n                break\n",
+  ('R-TABLEFIELDS', '_typed_namedtuple_to_columns'))
+M('C11', 'getattrcolumn-default-none', SB,
+  "        return getattr(context, self.name)", "        return getattr(context, self.name, None)",
+  ('R-TYPEDCOLS', 'GetAttrColumn.__call__'))
+T('C11', 'twin-typed-columns-renames-normalised', SB,
+  "        colname = renames.get(name, name) if renames is not None else name\n", "        colname = name\n        if renames is not None and name in renames:\n            colname = renames[name]\n")
